@@ -167,8 +167,11 @@ func validate(k string) error {
 	if strings.ContainsRune(k, 0) {
 		return errors.New(`cannot contain a NUL byte`)
 	}
-	if strings.ContainsAny(k, `!@#$%^&*()+={}[] :;"',.<>?/\|~`) {
-		return errors.New(`cannot contain: !@#$%^&*()+={}[] :;"',.<>?/\|~`)
+	if strings.ContainsAny(k, `!@#$%^&*()+={}[] :;"',.<>?/\|~`+"`") {
+		return errors.New(`cannot contain: !@#$%^&*()+={}[] :;"',.<>?/\|~` + "`")
+	}
+	if strings.IndexFunc(k, func(r rune) bool { return r < 0x20 || r == 0x7f }) >= 0 {
+		return errors.New(`cannot contain whitespace or control characters`)
 	}
 	if strings.HasPrefix(k, "_") || strings.HasPrefix(k, "-") {
 		return errors.New(`cannot start with _-`)
